@@ -220,8 +220,11 @@ def pending_bookkeeping(ctx):
                       "a pending dependency is inserted outside the Invalidated handler, not by the message's own kind/target id, or not on every path of the handler")
     # outside actor bodies: only the constructor may touch the sets
     cons = {b.name for (b, s) in r.bodies_constructing("TargetActorHelper")}
-    for b in ctx.f.code_bodies():
-        if b.name in actor_names or b.name in cons:
+    in_actor_views = set()
+    for a in actors:
+        in_actor_views |= r.origins_of_view(ctx.f.bodies[a.name])
+    for b in ctx.f.user_bodies():
+        if b.name in actor_names or b.name in cons or b.name in in_actor_views or r.outer_fn(b).name in cons:
             continue
         for (bb, t, meth, at) in set_mutations(b, "unavailable_dependencies"):
             ctx.bad(f"{short(b.name)}/{meth}", [site(b, bb)], "the pending-dependency sets are mutated outside an actor's Ok/Invalidated handlers", props=["C01"])
@@ -250,7 +253,13 @@ def _must_pass(body, region, bb):
 
 
 def classify_ok_site(r, body, bb, st):
-    """idiom of an ActorInputMessage::Ok construction: 'I1' | 'I2' | 'I3' | None, with a reason"""
+    """idiom of an ActorInputMessage::Ok construction: 'I1' | 'I2' | 'I3' | None, with a reason.
+    The site is looked at inside the actor view that contains it (a handler extracted into a method is part of the actor)."""
+    body, bb, st = r.map_site(r.actors(), body, bb, st)
+    return _classify_ok_site(r, body, bb, st)
+
+
+def _classify_ok_site(r, body, bb, st):
     # I1: dominated by the true edge of a read of `executed`
     G1 = guard_region(body, desc_is_field_read("executed"), True)
     if bb in G1:
@@ -272,7 +281,7 @@ def classify_ok_site(r, body, bb, st):
             return None, "the aggregate's acknowledgement depends on a further condition: " + fmt_conds(extra)
         return None, "acknowledged under an empty pending set of a *different* kind than the one acknowledged"
     # I2: foreign-kind reply
-    if body in r.actors():
+    if r.is_role(r.actors(), body):
         kinds = r.actor_kinds(body)
         Rreq = msg_region(body, "Requested")
         subs = kind_subregions(body, Rreq, "Requested")
@@ -303,7 +312,8 @@ def ok_discipline(ctx):
                 ctx.ok(inst, [site(b, bb)], f"{idiom}: {why}", props=props)
             else:
                 # attribution of an unclassifiable site: by the role of the body it sits in (DESIGN.md 3.7.1)
-                if b in r.actors() and not r.actor_kinds(b):
+                vb, _ = r.site_in(r.actors(), b, bb)
+                if r.is_role(r.actors(), vb) and not r.actor_kinds(vb):
                     props = ["C01", "C20"]
                 elif b in r.helper_methods():
                     props = ["C01", "C06"]
